@@ -22,6 +22,6 @@ def register(PROPS, HARNESS_PKGS):
                 "through the assembled server; statuses, catalogue, contacted backends and answers validated by "
                 "OllaTrace. Non-trivial = at least two requests and a change of the world.",
         "exhaustive": False,
-        "assumptions": ["default configuration: strict model routing, unified registry, sherpa engine, round-robin"],
+        "assumptions": ["default configuration: strict model routing, unified registry, sherpa engine; the balancer (round-robin, priority, least-connections) and the endpoints' priorities are scenario constants"],
         "parts": [part],
     }
